@@ -484,7 +484,11 @@ func c10WebSeqPhase(e *c10WebEnv) {
 func c10WebConcPhase(e *c10WebEnv) {
 	// a third of the cases each with 1, 2 and all CPUs, set BEFORE the server exists; the burst below has
 	// 12 ≥ 4×GOMAXPROCS simultaneous requests in the first two
-	if procs := []int{1, 2, 0}[len(e.cs.Others)%3]; procs > 0 {
+	procs := []int{1, 2, 0}[len(e.cs.Others)%3]
+	if e.cs.Procs != 0 {
+		procs = e.cs.Procs
+	}
+	if procs > 0 {
 		defer runtime.GOMAXPROCS(runtime.GOMAXPROCS(procs))
 		e.c.Res.Hit(fmt.Sprintf("web-conc-GOMAXPROCS=%d", procs))
 	}
